@@ -69,10 +69,10 @@ func (x *executor) intrinsic(m *machine, fr *frame, in ssa.Instruction, res ssa.
 		}
 		x.oblige(m, "bounds", x.instrName(fr, in, "bounds"), c.cmp(token.LEQ, c.I(int64(nbytes)), c.slLen(b), intT), nil, fmt.Sprintf("binary.%s needs %d bytes", name, nbytes))
 		st.assume(c.cmp(token.LEQ, c.I(int64(nbytes)), c.slLen(b), intT))
-		es := c.sortOf(u8)
-		arr := mkSelect(c.arrOf(st, es), c.slRef(b))
+		_ = c.sortOf(u8)
+		arr := mkSelect(c.arrOf(st, u8), c.slRef(b))
 		byteAt := func(i int) *T {
-			return mkSelect(arr, c.arith(token.ADD, c.slOff(b), c.I(int64(i)), intT, nil))
+			return mkSelect(arr, c.ix(c.slOff(b), c.I(int64(i))))
 		}
 		w := nbytes * 8
 		if strings.HasPrefix(name, "Uint") {
@@ -104,7 +104,7 @@ func (x *executor) intrinsic(m *machine, fr *frame, in ssa.Instruction, res ssa.
 		}
 		if strings.HasPrefix(name, "PutUint") {
 			v := args[2].t
-			x.checkFrameRef(m, fr, in, false, es, c.slRef(b))
+			x.checkFrameRef(m, fr, in, false, heapKey(u8), c.slRef(b))
 			na := arr
 			for i := 0; i < nbytes; i++ {
 				pos := i
@@ -117,10 +117,10 @@ func (x *executor) intrinsic(m *machine, fr *frame, in ssa.Instruction, res ssa.
 				} else {
 					bt = app("mod", "Int", app("div", "Int", v, atom(pow2(8*pos).String(), "Int")), atom("256", "Int"))
 				}
-				na = mkStore(na, c.arith(token.ADD, c.slOff(b), c.I(int64(i)), intT, nil), bt)
+				na = mkStore(na, c.ix(c.slOff(b), c.I(int64(i))), bt)
 			}
-			a := c.arrOf(st, es)
-			st.arrs[es] = c.name(st, "A_"+es, mkStore(a, c.slRef(b), na))
+			a := c.arrOf(st, u8)
+			c.setArr(st, u8, mkStore(a, c.slRef(b), na))
 			return true
 		}
 		return false
